@@ -21,10 +21,11 @@ EXTENDS KeyRing, Json, TLC
 
 CONSTANTS Family, Tier
 
-VARIABLES gen,     \* "req" | "db" | "f" | "run"
+VARIABLES gen,     \* "req" | "db" | "fstart" | "ffill" | "run"
+          todo,    \* wanted (server, key ID) pairs still to be given an entry
           nreq, nf
 
-allvars == <<vars, gen, nreq, nf>>
+allvars == <<vars, gen, todo, nreq, nf>>
 
 \* --------------------------------------------------------------- vocabulary
 TQuick == {-48, -24, 24, 192}
@@ -47,21 +48,28 @@ Patterns == {
     {Sg("rsa", "G")}, {Sg("rsa", "G"), Sg("k1", "K1")}, {} }
 PatternsSmall == { {Sg("k1", "K1")}, {Sg("k1", "G"), Sg("k2", "K2")}, {Sg("rsa", "G")}, {} }
 
+PatternsQ1 == { {Sg("k1", "K1")}, {Sg("k1", "G"), Sg("k2", "K2")}, {Sg("rsa", "G"), Sg("k1", "K1")}, {} }
+PatternsQ2 == { {Sg("k1", "K1")}, {Sg("k2", "K2")}, {Sg("rsa", "G")}, {} }
+
 NotJSON(srv) == [srv |-> srv, form |-> "notjson", sigs |-> {}, ts |-> -48, strict |-> TRUE]
 
 ReqOpts(n) ==
     CASE Family = "single" ->
             {Rq("s1", {Sg("k1", by)}, ts, st) : by \in {"K1", "G"}, ts \in T, st \in BOOLEAN}
       [] Family = "pair" ->
-            IF n = 1 THEN {Rq("s1", p, -48, TRUE) : p \in Patterns} \cup {NotJSON("s1")}
-            ELSE {Rq(s, p, -48, TRUE) : s \in {"s1", "s2"}, p \in (IF Tier = "quick" THEN PatternsSmall ELSE Patterns)}
+            IF Tier = "quick"
+            THEN IF n = 1 THEN {Rq("s1", p, -48, TRUE) : p \in PatternsQ1} \cup {NotJSON("s1")}
+                 ELSE {Rq(s, p, -48, TRUE) : s \in {"s1", "s2"}, p \in PatternsQ2}
+            ELSE IF n = 1 THEN {Rq("s1", p, -48, TRUE) : p \in Patterns} \cup {NotJSON("s1")}
+                 ELSE {Rq(s, p, -48, TRUE) : s \in {"s1", "s2"}, p \in PatternsSmall}
       [] Family = "dberr" ->
             {Rq(s, p, -48, TRUE) : s \in {"s1", "s2"}, p \in PatternsSmall}
       [] OTHER ->  \* batch
             {Rq(s, p, ts, st) : s \in {"s1", "s2"}, p \in Patterns, ts \in {-48, 24, 192}, st \in BOOLEAN}
             \cup {NotJSON("s1")}
 
-MaxReq == CASE Family = "single" -> 1 [] Family = "pair" -> 2 [] Family = "dberr" -> 2 [] OTHER -> 3
+MaxReq == CASE Family = "single" -> 1 [] Family = "pair" -> 2
+            [] Family = "dberr" -> (IF Tier = "quick" THEN 1 ELSE 2) [] OTHER -> 3
 MinReq == CASE Family = "pair" -> 2 [] OTHER -> 1
 MaxF == CASE Family = "dberr" -> 1 [] OTHER -> 2
 DBModes == IF Family = "dberr" THEN {"fetcherr", "storeerr"} ELSE {"ok"}
@@ -72,8 +80,7 @@ DBEntries(p) ==
     CASE Family = "single" ->
             {NoKey} \cup {Cur(k, v) : k \in {g, w}, v \in T} \cup {Exp(k, e) : k \in {g, w}, e \in T}
       [] Family = "pair" ->
-            IF Tier = "quick" THEN {NoKey, Cur(g, 24), Cur(g, -24)}
-            ELSE {NoKey, Cur(g, 24), Cur(g, -24), Cur(w, 24), Exp(g, -24)}
+            {NoKey, Cur(g, 24), Cur(g, -24)}
       [] Family = "dberr" -> {NoKey, Cur(g, 24), Cur(g, -24)}
       [] OTHER ->
             {NoKey, Cur(g, 24), Cur(g, -24), Cur(g, -72), Cur(g, 216), Cur(w, 24), Cur(w, -24),
@@ -90,27 +97,26 @@ FEntries(j, p) ==
 
 \* ------------------------------------------------------------ table helpers
 WantedPairs == UNION {{<<requests[i].srv, k>> : k \in SupportedIDs(requests[i])} : i \in DOMAIN requests}
-NameTab(t) ==   \* from a function over pairs to a table over key names, absent entries dropped
-    LET ps == {p \in DOMAIN t : t[p].key # "-"} IN
-    [kn \in {KN(p[1], p[2]) : p \in ps} |-> t[CHOOSE p \in ps : KN(p[1], p[2]) = kn]]
-Junk == [kn \in {"s1/k9"} |-> Cur("K1", 24)]    \* a key nobody asked for
+Put(t, p, e) == IF e.key = "-" THEN t ELSE Merge(t, KN(p[1], p[2]) :> e)
+Junk == ("s1/k9" :> Cur("K1", 24))      \* a key nobody asked for
+FullTab(K(_)) == [kn \in {KN(p[1], p[2]) : p \in WantedPairs} |->
+                    LET p == CHOOSE q \in WantedPairs : KN(q[1], q[2]) = kn IN Cur(K(p[2]), 24)]
 
-FOpts(j) ==
-    LET full == {[mode |-> "ok", tab |-> NameTab(t), all |-> a] :
-                    t \in [WantedPairs -> UNION {FEntries(j, p) : p \in WantedPairs}], a \in BOOLEAN}
-        typed == {f \in full : \A p \in WantedPairs : Look(f.tab, KN(p[1], p[2])) \in FEntries(j, p)}
-        junk == {[f EXCEPT !.tab = Merge(@, Junk)] : f \in {f \in typed : f.all}}
-        err == {[mode |-> "error", tab |-> <<>>, all |-> FALSE]}
+ErrF == [mode |-> "error", tab |-> <<>>, all |-> FALSE]
+\* how fetcher j starts: a finished fetcher (fill = FALSE) or an empty table to be filled per wanted key
+Shapes(j) ==
+    LET fill(a, junk) == [fill |-> TRUE, f |-> [mode |-> "ok", tab |-> IF junk THEN Junk ELSE <<>>, all |-> a]]
+        fixed(f) == [fill |-> FALSE, f |-> f]
     IN  IF Family = "pair" /\ j = 2
-        THEN \* second fetcher: a few fixed shapes
-             err \cup {[mode |-> "ok", tab |-> NameTab([p \in WantedPairs |-> Cur(GoodKey(p[2]), 24)]), all |-> a] : a \in BOOLEAN}
-                 \cup {[mode |-> "ok", tab |-> NameTab([p \in WantedPairs |-> Cur(WrongKey(p[2]), 24)]), all |-> TRUE]}
-        ELSE IF Family = "single" THEN err \cup {f \in typed : ~f.all}
-        ELSE err \cup typed \cup junk
+        THEN {fixed(ErrF), fixed([mode |-> "ok", tab |-> FullTab(GoodKey), all |-> FALSE]),
+              fixed([mode |-> "ok", tab |-> FullTab(GoodKey), all |-> TRUE]),
+              fixed([mode |-> "ok", tab |-> FullTab(WrongKey), all |-> TRUE])}
+        ELSE IF Family = "single" THEN {fixed(ErrF), fill(FALSE, FALSE)}
+        ELSE {fixed(ErrF), fill(FALSE, FALSE), fill(TRUE, FALSE), fill(TRUE, TRUE)}
 
 \* --------------------------------------------------------------- generation
 GenInit ==
-    /\ gen = "req"
+    /\ gen = "req" /\ todo = {}
     /\ nreq \in MinReq..MaxReq /\ nf \in 0..MaxF
     /\ requests = <<>> /\ db = <<>> /\ fetchers = <<>>
     /\ dbmode \in DBModes /\ now = 0
@@ -120,39 +126,54 @@ GenInit ==
 GenReq ==
     /\ gen = "req" /\ Len(requests) < nreq
     /\ \E r \in ReqOpts(Len(requests) + 1) : requests' = Append(requests, r)
-    /\ UNCHANGED <<db, dbmode, fetchers, now, ringvars, gen, nreq, nf>>
+    /\ UNCHANGED <<db, dbmode, fetchers, now, ringvars, gen, todo, nreq, nf>>
 
 GenReqDone ==
     /\ gen = "req" /\ Len(requests) = nreq
-    /\ gen' = "db"
+    /\ gen' = "db" /\ todo' = WantedPairs
     /\ UNCHANGED <<vars, nreq, nf>>
 
 GenDB ==
-    /\ gen = "db"
-    /\ \E t \in [WantedPairs -> UNION {DBEntries(p) : p \in WantedPairs}] :
-          /\ \A p \in WantedPairs : t[p] \in DBEntries(p)
-          /\ db' = NameTab(t)
-    /\ gen' = "f"
-    /\ UNCHANGED <<requests, dbmode, fetchers, now, ringvars, nreq, nf>>
+    /\ gen = "db" /\ todo # {}
+    /\ LET p == CHOOSE q \in todo : TRUE IN
+       /\ \E e \in DBEntries(p) : db' = Put(db, p, e)
+       /\ todo' = todo \ {p}
+    /\ UNCHANGED <<requests, dbmode, fetchers, now, ringvars, gen, nreq, nf>>
 
-GenF ==
-    /\ gen = "f" /\ Len(fetchers) < nf
-    /\ \E f \in FOpts(Len(fetchers) + 1) : fetchers' = Append(fetchers, f)
-    /\ UNCHANGED <<requests, db, dbmode, now, ringvars, gen, nreq, nf>>
+GenDBDone ==
+    /\ gen = "db" /\ todo = {}
+    /\ gen' = "fstart"
+    /\ UNCHANGED <<vars, todo, nreq, nf>>
+
+GenFStart ==
+    /\ gen = "fstart" /\ Len(fetchers) < nf
+    /\ \E s \in Shapes(Len(fetchers) + 1) :
+          /\ fetchers' = Append(fetchers, s.f)
+          /\ IF s.fill THEN gen' = "ffill" /\ todo' = WantedPairs ELSE UNCHANGED <<gen, todo>>
+    /\ UNCHANGED <<requests, db, dbmode, now, ringvars, nreq, nf>>
+
+GenFFill ==
+    /\ gen = "ffill"
+    /\ IF todo = {} THEN gen' = "fstart" /\ UNCHANGED <<fetchers, todo>>
+       ELSE LET p == CHOOSE q \in todo : TRUE
+                j == Len(fetchers) IN
+            /\ \E e \in FEntries(j, p) : fetchers' = [fetchers EXCEPT ![j].tab = Put(@, p, e)]
+            /\ todo' = todo \ {p} /\ UNCHANGED gen
+    /\ UNCHANGED <<requests, db, dbmode, now, ringvars, nreq, nf>>
 
 GenFDone ==
-    /\ gen = "f" /\ Len(fetchers) = nf
+    /\ gen = "fstart" /\ Len(fetchers) = nf
     /\ gen' = "run" /\ stage' = "prepare"
-    /\ UNCHANGED <<scenario, fi, results, pending, have, fetched, stored, toperr, calls, nreq, nf>>
+    /\ UNCHANGED <<scenario, fi, results, pending, have, fetched, stored, toperr, calls, todo, nreq, nf>>
 
-Run == gen = "run" /\ RingNext /\ UNCHANGED <<gen, nreq, nf>>
+Run == gen = "run" /\ RingNext /\ UNCHANGED <<gen, todo, nreq, nf>>
 
 Init == GenInit
-Next == GenReq \/ GenReqDone \/ GenDB \/ GenF \/ GenFDone \/ Run
+Next == GenReq \/ GenReqDone \/ GenDB \/ GenDBDone \/ GenFStart \/ GenFFill \/ GenFDone \/ Run
 Spec == Init /\ [][Next]_allvars
 
 \* exhaustive search: the history `calls` is hidden from the fingerprint
-View == <<requests, db, dbmode, fetchers, now, stage, fi, results, pending, have, fetched, stored, toperr, gen, nreq, nf>>
+View == <<requests, db, dbmode, fetchers, now, stage, fi, results, pending, have, fetched, stored, toperr, gen, todo, nreq, nf>>
 
 \* ----------------------------------------------------------------- emission
 MustClass(i) == IF MustOK(i) THEN "ok" ELSE IF MayOK(i) THEN "free" ELSE "fail"
